@@ -153,7 +153,7 @@ def r1_conservation(ctx):
             if s.name == 'std::mem::drop' and s.argtys and (s.argtys[0] == MSG or s.argtys[0].startswith('(' + MSG)):
                 sites.append(s)
     allowed = {CH + 'ChannelDropBehaviour::handle', 'des::net::runtime::events::MessageExitingConnection::handle_with_sink'}
-    ctx.floor('explicit message drops (policy sites)', len(sites), 3)
+    ctx.floor('functions with explicit message drops (policy sites)', len({s.fn.key for s in sites}), 2)
     for s in sites:
         ctx.check(s.fn.key in allowed, 'explicit-drop-site:%s' % s.fn.key, 'messages are explicitly dropped only by the channel policy and the inactive-owner transit rule', s.where())
 
@@ -209,6 +209,11 @@ def r2_admission(ctx):
                 has_acc = any(p[0] == 'field' and p[2] == 'acc_bytes' for p in parts)
                 has_len = any(p[0] == 'call' and p[1] == MSG + '::length' for p in parts)
                 is_lim = any(x[0] == 'call' and x[1].endswith('Option::unwrap_or') for x in walk(r))
+                rp = peel(r)
+                if not is_lim and rp[0] == 'phi':
+                    # `match limit { Some(b) => b, None => usize::MAX }`
+                    alts = [peel(x) for x in rp[1]]
+                    is_lim = all(x == ('int', 2 ** 64 - 1) or 'as Queue' in show_c(x) for x in alts) and any('as Queue' in show_c(x) for x in alts)
                 if has_acc and has_len and is_lim:
                     if (op == 'gt' and drops == 1 and enq == 0) or (op == 'le' and enq == 1 and drops == 0):
                         good = True
